@@ -40,3 +40,53 @@ package keeper
 //@ ensures C12/custody: err == nil && denom != ptypes.Eden && denom != ptypes.EdenB ==> c12CustodyGap(ctx, d) == old(c12CustodyGap(ctx, d))
 //@ ensures C12/total-committed: err == nil && denom != ptypes.Eden && denom != ptypes.EdenB ==> c12TotalGap(ctx, d) == old(c12TotalGap(ctx, d))
 //@ ensures C12/known-defect-total-grows-on-uncommit: err == nil && denom != ptypes.Eden && denom != ptypes.EdenB ==> amt(k.GetParams(ctx).TotalCommitted, d) == old(amt(k.GetParams(ctx).TotalCommitted, d)) + ite(d == denom, amount, 0)
+
+// ---- C14: vesting -----------------------------------------------------------------------------
+// Stored vesting entries are well formed: 0 <= released <= total, schedule length >= 0.
+//@ rowinv C14/vestingWF table commitment:types.GetCommitmentsKey row types.Commitments : vestingWF(row)
+
+// Configured schedules are never negative (MsgUpdateVestingInfo.ValidateBasic -> VestingInfo.Validate).
+//@ rowinv C14/vestingInfoWF table commitment:types.ParamsKey row types.Params : allOf(row.VestingInfos, i, i.NumBlocks >= 0)
+
+// ValidateBasic of the message has run before the handler (SDK ante handling, T1).
+//@ func (msgServer).UpdateVestingInfo
+//@ bound VestingInfos 2
+//@ requires msg.NumBlocks >= 0
+//@ ensures C14/update-keeps-schedules-non-negative: true
+
+//@ func (Keeper).ClaimVesting
+//@ forall d Str
+//@ bound VestingTokens 2
+//@ requires unbech32(msg.Sender) != modAddr("commitment")
+//@ nopanic
+//@ ensures C14/released-equals-newly-vested: err == nil ==> bal(ctx, unbech32(msg.Sender), d) - old(bal(ctx, unbech32(msg.Sender), d)) == old(sumOver(k.GetCommitments(ctx, unbech32(msg.Sender)).VestingTokens, v, ite(v.Denom == d, max(vestedAt(v, blockHeight(ctx)) - v.ClaimedAmount, 0), 0)))
+//@ ensures C14/released-plus-outstanding-conserved: err == nil ==> bal(ctx, unbech32(msg.Sender), d) + outstanding(k.GetCommitments(ctx, unbech32(msg.Sender)), d) == old(bal(ctx, unbech32(msg.Sender), d) + outstanding(k.GetCommitments(ctx, unbech32(msg.Sender)), d))
+//@ ensures C14/only-elys-minted: err == nil ==> supply(ctx, d) - old(supply(ctx, d)) == ite(d == ptypes.Elys, bal(ctx, unbech32(msg.Sender), d) - old(bal(ctx, unbech32(msg.Sender), d)), 0)
+
+//@ func (msgServer).CancelVest
+//@ forall d Str
+//@ bound VestingTokens 2
+//@ requires msg.Amount >= 0
+//@ ensures C14/cancel-returns-exactly: err == nil ==> amt(k.GetCommitments(goCtx, unbech32(msg.Creator)).Claimed, d) - old(amt(k.GetCommitments(goCtx, unbech32(msg.Creator)).Claimed, d)) == ite(d == ptypes.Eden, msg.Amount, 0)
+//@ ensures C14/cancel-conserves: err == nil ==> outstanding(k.GetCommitments(goCtx, unbech32(msg.Creator)), ptypes.Elys) == old(outstanding(k.GetCommitments(goCtx, unbech32(msg.Creator)), ptypes.Elys)) - msg.Amount
+//@ ensures C14/cancel-touches-no-bank: err == nil ==> bal(goCtx, unbech32(msg.Creator), d) == old(bal(goCtx, unbech32(msg.Creator), d)) && supply(goCtx, d) == old(supply(goCtx, d))
+
+//@ func (msgServer).VestNow
+//@ forall d Str
+//@ bound VestingInfos 2
+//@ requires msg.Amount >= 0
+//@ requires unbech32(msg.Creator) != modAddr("commitment")
+//@ letold info := fst(k.GetVestingInfo(goCtx, msg.Denom))
+//@ ensures C14/vest-now-pays-quotient: err == nil ==> bal(goCtx, unbech32(msg.Creator), d) - old(bal(goCtx, unbech32(msg.Creator), d)) == ite(d == info.VestingDenom, msg.Amount / info.VestNowFactor, 0)
+//@ ensures C14/vest-now-mints-only-elys: err == nil ==> supply(goCtx, d) - old(supply(goCtx, d)) == ite(d == ptypes.Elys && info.VestingDenom == ptypes.Elys, msg.Amount / info.VestNowFactor, 0)
+//@ ensures C14/vest-now-consumes-claimed: err == nil ==> amt(k.GetCommitments(goCtx, unbech32(msg.Creator)).Claimed, d) == old(amt(k.GetCommitments(goCtx, unbech32(msg.Creator)).Claimed, d)) - ite(d == msg.Denom, msg.Amount, 0)
+
+//@ func (Keeper).ProcessTokenVesting
+//@ forall d Str
+//@ bound VestingInfos 2
+//@ bound VestingTokens 2
+//@ requires amount >= 0
+//@ letold info := fst(k.GetVestingInfo(ctx, denom))
+//@ ensures C14/vest-adds-exactly: err == nil ==> outstanding(k.GetCommitments(ctx, creator), d) == old(outstanding(k.GetCommitments(ctx, creator), d)) + ite(d == info.VestingDenom, amount, 0)
+//@ ensures C14/vest-consumes-claimed: err == nil ==> amt(k.GetCommitments(ctx, creator).Claimed, d) == old(amt(k.GetCommitments(ctx, creator).Claimed, d)) - ite(d == denom, amount, 0)
+//@ ensures C14/vest-touches-no-bank: err == nil ==> bal(ctx, creator, d) == old(bal(ctx, creator, d)) && supply(ctx, d) == old(supply(ctx, d))
